@@ -167,7 +167,7 @@ Print Assumptions C16_follower_session_gap.
 Theorem C16_monitor_subject_accepts_model : forall tr w t,
   wreach tr w ->
   (forall q, In q (questions tr) -> wf_question q = true /\ guard q = true) ->
-  thread (w_g w) t <> None -> subject_clause tr t = true.
+  thread (w_g w) t <> None -> allowed_clause tr t = true -> subject_clause tr t = true.
 Proof. exact monitor_subject_accepts_model. Qed.
 Print Assumptions C16_monitor_subject_accepts_model.
 
@@ -179,10 +179,11 @@ Print Assumptions C16_monitor_session_accepts_leader.
 
 (* Attribution (Corr_C16.judge): on every run of the wrapper model, each failing clause of the
    monitor carries the signature of a listed finding — a failing subject clause only when the
-   caller's or its leader's question violates the guard (C16-K2) ... *)
+   caller's or its leader's question violates the guard (C16-K2) or the two passed different
+   allowed groups to one wrapper object (C16-K3) ... *)
 Theorem C16_monitor_subject_failure_explained : forall tr w t,
   wreach tr w -> (forall q, In q (questions tr) -> wf_question q = true) ->
-  thread (w_g w) t <> None -> guard_clause tr t = true -> subject_clause tr t = true.
+  thread (w_g w) t <> None -> guard_clause tr t = true -> allowed_clause tr t = true -> subject_clause tr t = true.
 Proof. exact monitor_subject_failure_explained. Qed.
 Print Assumptions C16_monitor_subject_failure_explained.
 
@@ -202,3 +203,62 @@ Theorem C16_monitor_failures_explained : forall tr w t c r n,
   clause_failures_explained tr t (wsession w t) = true.
 Proof. exact monitor_failures_explained. Qed.
 Print Assumptions C16_monitor_failures_explained.
+
+(* ---------------- several wrapper objects; the execution log ---------------- *)
+
+(* A deployment is a family of wrapper objects, each with its own group (proxy.New: one per
+   upstream; auth: one per provider). Each object's state is a run of the single-wrapper LTS on
+   exactly the events that happened at that object, so every theorem above holds per object ... *)
+Theorem C16_wrappers_independent : forall tr m,
+  mreach tr m -> forall a, wrun winit (project a tr) = Some (component m a).
+Proof. exact mreach_project. Qed.
+Print Assumptions C16_wrappers_independent.
+
+(* ... and an object knows only the callers that called IT: callers of distinct wrapper objects
+   never share a call. *)
+Theorem C16_distinct_wrappers_never_share : forall tr m a t,
+  mreach tr m -> thread (w_g (component m a)) t <> None -> exists q, In (a, WEnter t q) tr.
+Proof. exact wrapper_knows_only_its_callers. Qed.
+Print Assumptions C16_distinct_wrappers_never_share.
+
+(* The proxy's ValidateSessionState / RefreshSession keys omit the allowed groups the answer
+   depends on: "calls that differ in the group set asked about are never merged" is FALSE of one
+   wrapper object handed two different allowedGroups (known finding C16-K3, latent) ... *)
+Theorem C16_allowed_groups_not_in_key_refuted :
+  exists q1 q2, wf_question q1 = true /\ wf_question q2 = true /\ guard q1 = true /\ guard q2 = true /\
+    wrapper_key q1 = wrapper_key q2 /\ allowed_of q1 <> allowed_of q2.
+Proof. exact allowed_groups_not_in_key_refuted. Qed.
+Print Assumptions C16_allowed_groups_not_in_key_refuted.
+
+(* ... and true of a deployment-shaped run: when every validate/refresh question put to wrapper
+   object a carries that object's allowed groups (one object per upstream), callers that share an
+   execution asked about the same subject INCLUDING the allowed groups. *)
+Theorem C16_merged_same_full_subject : forall tr m a cfg t1 t2 c q1 q2,
+  mreach tr m ->
+  (forall t e s al, In (a, WEnter t (QSession e s al)) tr -> e = PValidate \/ e = PRefresh -> sort_strs al = cfg) ->
+  in_call (w_g (component m a)) t1 c -> in_call (w_g (component m a)) t2 c ->
+  In (a, WEnter t1 q1) tr -> In (a, WEnter t2 q2) tr ->
+  wf_question q1 = true -> wf_question q2 = true -> guard q1 = true -> guard q2 = true ->
+  service_of (q_endpoint q1) = service_of (q_endpoint q2) ->
+  subject_of q1 = subject_of q2 /\ allowed_of q1 = allowed_of q2.
+Proof. exact merged_same_full_subject. Qed.
+Print Assumptions C16_merged_same_full_subject.
+
+(* One at a time, on the execution log: on every accepted event list, the executions (begin =
+   a caller creates a call and runs fn, end = fn returns) of one key never overlap; this is the
+   monitor's execution clause — evaluated on the inner providers' own begin/end log — applied to
+   the model's prediction. Per (wrapper object, key) for a deployment. *)
+Theorem C16_log_one_at_a_time : forall (R : Type) (tr : list (event R)) s l,
+  run_log init [] tr = Some (s, l) -> exec_ok (key_of tr) l = true.
+Proof. exact @model_log_one_at_a_time. Qed.
+Print Assumptions C16_log_one_at_a_time.
+
+Theorem C16_wrapper_log_one_at_a_time : forall tr m a,
+  mreach tr m ->
+  exists l, run_log init [] (map erase (project a tr)) = Some (w_g (component m a), l) /\
+            exec_ok (key_of (map erase (project a tr))) l = true.
+Proof.
+  intros tr m a H. destruct (wrapper_log_exists tr m a H) as [l Hl]. exists l. split; [exact Hl|].
+  exact (wrapper_log_one_at_a_time tr m a _ l H Hl).
+Qed.
+Print Assumptions C16_wrapper_log_one_at_a_time.
